@@ -49,10 +49,10 @@ Inductive op :=
 | ClusterGone (u : string)                (* the UpstreamCluster disappears from the lister; the handler did not run *)
 | ClusterSet (u : string).                (* the UpstreamCluster is (again) in the lister and UpstreamConditionHandler ran *)
 
-Inductive res := RNil | ROk | RNotFound | RAcc (b : bool).
+Inductive res := RNil | ROk | RNotFound | RAcc (b : bool) | RNotLeader.
 Definition res_eqb (a b : res) : bool :=
   match a, b with
-  | RNil, RNil | ROk, ROk | RNotFound, RNotFound => true
+  | RNil, RNil | ROk, ROk | RNotFound, RNotFound | RNotLeader, RNotLeader => true
   | RAcc x, RAcc y => Bool.eqb x y
   | _, _ => false
   end.
@@ -146,10 +146,73 @@ Definition step (c : cfg) (lf ah : bool) (s : st) (o : op) : st * res :=
   | ClusterSet u =>
       let l := if str_mem u (lister s) then lister s else u :: lister s in
       match alookup String.eqb u (sums s) with
-      | Some _ => (mkSt (now s) (hb s) (conds s) (sums s) (cnts s) l, RNil)
+      | Some _ => (mkSt (now s) (hb s) (conds s) (sums s)
+                      (match alookup String.eqb u (cnts s) with Some _ => cnts s | None => aset String.eqb u ([], 0) (cnts s) end) l, RNil)
       | None => (mkSt (now s) (hb s) (conds s) (aset String.eqb u 0 (sums s))
                       (match alookup String.eqb u (cnts s) with Some _ => cnts s | None => aset String.eqb u ([], 0) (cnts s) end) l, RNil)
       end
+  end.
+
+(* ---- leadership: the replica with its API-backed (write-through) store ----
+   [core] holds the client cache (kept whether or not the replica leads a shard), the persisted
+   conditions and recorded sums (what the API holds; while the replica leads they are also the
+   contents of its store) and, while it leads, the in-memory counts.  [step] above is the behaviour
+   while leading; a standby records heartbeats, ages its client cache, follows the lister, and
+   refuses reports and acquires. *)
+Record srv := mkSrv { core : st; lead : bool }.
+
+Inductive sop :=
+| Op (o : op)
+| StopLeading                             (* OnStoppedLeading: the store is flushed and dropped, in-memory counts are lost *)
+| StartLeading.                           (* OnStartedLeading: new store, Load of the persisted conditions, handler for every listed upstream *)
+
+(* startLeading: Load + syncUpstreamClustersForShard (state condition and fresh flow controls for
+   every upstream in the lister) *)
+Definition takeover (s : st) : st :=
+  mkSt (now s) (hb s) (conds s)
+       (fold_left (fun acc u => match alookup String.eqb u acc with Some _ => acc | None => aset String.eqb u 0 acc end)
+                  (lister s) (sums s))
+       (map (fun u => (u, ([], 0))) (lister s))
+       (lister s).
+
+Definition standby_step (s : st) (o : op) : st * res :=
+  match o with
+  | Heartbeat i => (mkSt (now s) (aset String.eqb i (now s) (hb s)) (conds s) (sums s) (cnts s) (lister s), RNil)
+  | Advance dt => (mkSt (now s + dt) (hb s) (conds s) (sums s) (cnts s) (lister s), RNil)
+  | Report _ _ _ => (s, RNotLeader)
+  | Acquire _ _ _ => (s, RNotLeader)
+  | TickTimeout =>
+      (* the cache is aged also on a standby; there is no store to clean *)
+      (mkSt (now s) (filter (fun p : string * Z => negb (now s >? snd p + timeout_ms)) (hb s))
+            (conds s) (sums s) (cnts s) (lister s), RNil)
+  | TickUnknown => (s, RNil)
+  | ClusterGone u =>
+      (mkSt (now s) (hb s) (conds s) (sums s) (cnts s) (filter (fun x => negb (String.eqb x u)) (lister s)), RNil)
+  | ClusterSet u =>
+      (mkSt (now s) (hb s) (conds s) (sums s) (cnts s) (if str_mem u (lister s) then lister s else u :: lister s), RNil)
+  end.
+
+Definition sstep (c : cfg) (lf ah : bool) (x : srv) (o : sop) : srv * res :=
+  match o with
+  | Op o => if lead x then let '(s', r) := step c lf ah (core x) o in (mkSrv s' true, r)
+            else let '(s', r) := standby_step (core x) o in (mkSrv s' false, r)
+  | StopLeading =>
+      if lead x then
+        (mkSrv (mkSt (now (core x)) (hb (core x)) (conds (core x)) (sums (core x)) [] (lister (core x))) false, RNil)
+      else (x, RNil)
+  | StartLeading => if lead x then (x, RNil) else (mkSrv (takeover (core x)) true, RNil)
+  end.
+
+Fixpoint srun_state (c : cfg) (lf ah : bool) (x : srv) (ops : list sop) : srv :=
+  match ops with
+  | [] => x
+  | o :: r => srun_state c lf ah (fst (sstep c lf ah x o)) r
+  end.
+
+Fixpoint srun (c : cfg) (lf ah : bool) (x : srv) (ops : list sop) : list (res * srv) :=
+  match ops with
+  | [] => []
+  | o :: r => let '(x', q) := sstep c lf ah x o in (q, x') :: srun c lf ah x' r
   end.
 
 Definition init (c : cfg) : st :=
@@ -166,6 +229,8 @@ Fixpoint run (c : cfg) (lf ah : bool) (s : st) (ops : list op) : list (res * st)
   | [] => []
   | o :: r => let '(s', x) := step c lf ah s o in (x, s') :: run c lf ah s' r
   end.
+
+Definition sinit (c : cfg) : srv := mkSrv (init c) true.
 
 (* which behaviour the tree under test has (false = pinned code) *)
 Definition impl_label_fix : bool := true.
